@@ -12,7 +12,9 @@ pub fn fnv(s: &str) -> u64 {
 
 /// `<readable>#<hash of the full debug rendering>`; the readable part never contains spaces.
 pub fn dig(readable: &str, full: &str) -> String {
-    let r: String = readable.chars().map(|c| if c.is_whitespace() || c == ';' || c == '|' { '_' } else { c }).take(60).collect();
+    // the readable part is only a label (the digest decides equality): nothing that a line protocol uses as a
+    // separator may survive in it — a URI or an ALPN value can contain `,`, `;`, `|`, `#`, `@`, `/`
+    let r: String = readable.chars().map(|c| if c.is_ascii_alphanumeric() || c == '_' || c == '.' || c == ':' || c == '-' { c } else { '_' }).take(60).collect();
     format!("{}#{:016x}", r, fnv(full))
 }
 
